@@ -56,8 +56,72 @@ CHECKS = {
         'exactly the empty children of nodes visited by the pattern (never a key with a live subscription at or below), that a full-depth wildcard shrink leaves no dead branch, and that exists(pattern) and depth() agree with the model.',
    note=TB + 'shrink-pattern regex semantics enumerated (they change the heap shape); probe regex semantics symbolic; depth <= 2, names {a,b}.',
    technique='SAT-based bounded model checking (CBMC) per (subscriptions, dead set, shrink pattern) cube; model of stored keys as oracle', design='4/C13'),
+
+ 'C01': dict(
+   text='The real Resource.cpp (+ReadLock/WriteLock) is compiled to LLVM IR, all may-yield callees are inlined, and ll2c turns every thread into a resumable step function; a scheduler written in C executes K steps where the thread '
+        'chosen at each step (and up to 2 spurious wake-ups) is a nondeterministic value. For every multiset of thread programs (2-3 threads x 1 lock/unlock pair, raw calls and guard classes, plus the (WW,R,R) slow-waker scenario of the '
+        'property text) CBMC decides over every such schedule that writers==0 || (writers==1 && readers==0) at each acquisition and that tulz\'s own assert(m_activeOp == opType) holds. Counterexample schedules are '
+        'replayed on the real g++ build with a schedule shim (cooperative pthreads following the recorded thread choices).',
+   note=TB + 'sequential consistency; context switches at synchronisation operations (complete for race-free code; race freedom is C15); model std::deque/mutex/condition_variable; thread programs enumerated, schedule solved for; bounded threads and schedule length.', technique='SAT-based bounded model checking (CBMC) of the sequentialised real Resource.cpp; the schedule is a solver variable', design='4/C01'),
+ 'C02': dict(
+   text='Same sequentialised encoding of the real Resource.cpp with spurious wake-ups disabled and a deadlock detector (before each step some unfinished thread must be enabled) plus a BOUND assertion that all threads finish within K steps: '
+        'for 3 threads x 1 pair (every R/W multiset with a writer, first schedule choice as cube) and for 2 threads + an idle-checker thread that afterwards must obtain write, read, read without ever parking, CBMC decides over every schedule. '
+        'Found and confirmed (shim replay on the real build) the lost wake-up of the original code; passes on the repaired code.',
+   note=TB + 'sequential consistency; context switches at synchronisation operations (complete for race-free code; race freedom is C15); model std::deque/mutex/condition_variable; thread programs enumerated, schedule solved for; bounded threads and schedule length.', technique='SAT-based bounded model checking (CBMC) of the sequentialised real Resource.cpp with deadlock detector; schedule as solver variable', design='4/C02'),
+ 'C03': dict(
+   text='Same encoding with ghost events issued / parked (first condition-variable wait of the call) / granted: at every grant CBMC checks, over every schedule of K steps, that no request that was already parked before this one was issued '
+        'is still ungranted, except two reads with no write request parked between them (batch). 2-3 threads x 1 pair, every R/W multiset.',
+   note=TB + 'sequential consistency; context switches at synchronisation operations (complete for race-free code; race freedom is C15); model std::deque/mutex/condition_variable; thread programs enumerated, schedule solved for; bounded threads and schedule length.', technique='SAT-based bounded model checking (CBMC) of the sequentialised real Resource.cpp with an arrival/grant log; schedule as solver variable', design='4/C03'),
+ 'C12': dict(
+   text='Same encoding: (a) reader-only programs (2 threads x 2 pairs, 3 threads x 1 pair): no reader ever reaches a condition-variable wait, over every schedule; (b) a writer that holds the lock until k readers are parked behind it, then '
+        'the readers rendezvous on a barrier inside the read section: the deadlock detector shows they are admitted together, over every schedule.',
+   note=TB + 'sequential consistency; context switches at synchronisation operations (complete for race-free code; race freedom is C15); model std::deque/mutex/condition_variable; thread programs enumerated, schedule solved for; bounded threads and schedule length.', technique='SAT-based bounded model checking (CBMC) of the sequentialised real Resource.cpp; schedule as solver variable', design='4/C12'),
+ 'C20': dict(
+   text='Sequentialised real Thread.h/Thread.cpp with a model std::thread (callable decay-copied to the heap, run on a new scheduled thread) and a stack-reuse model (an automatic object whose lifetime ended holds arbitrary bytes): for a '
+        'function pointer, a small closure, a large closure and a Runnable, CBMC decides over every schedule of starter vs. new thread that the callable is invoked exactly once on a live object with intact state and the caller\'s lvalue argument, '
+        'isFinished() only after the callable returned, join() only after that, Runnable destroyed once, nothing leaked. Counterexamples replayed with the schedule shim under ASan (stack-use-after-scope).',
+   note=TB + 'one starter + one started thread; context switches at synchronisation operations and harness yields; lifetime.end modelled as havoc.',
+   technique='SAT-based bounded model checking (CBMC) of the sequentialised real Thread code; schedule as solver variable; lifetime-end havoc', design='4/C20'),
+ 'C11': dict(
+   text='Compositional. Premise 1 (this check): lock discipline of the real ConcurrentSubjectRouter — the translator reports every load/store of the operation to a monitor; with the real Resource.cpp running single-threaded the monitor knows '
+        'in which mode the Resource is held and asserts that router memory (the SubjectRouter sub-object and every heap block allocated in write mode) is read only with the Resource held and written only in write mode, for notify, subscribe, '
+        'shrink, exists, depth and USubscription::unsubscribe over <=2 subscriptions and 6 pattern shapes (regex truth table symbolic). Premise 2: C01-C03 on the same Resource.cpp. Conclusion: operations are serialisable, so with C05/C06 a notify reaches '
+        'the observers subscribed at one instant and nothing is delivered after unsubscribe() returned. Counterexamples are confirmed on the real build by running the failing operation against a mixed workload under ThreadSanitizer.',
+   note=TB + 'a direct multi-thread exploration of router+lock is beyond the engine budget (stated in DESIGN.md); callbacks calling back into the router and mute/unmute are outside the property.',
+   technique='SAT-based bounded model checking (CBMC) of the instrumented router code: per-access lock-mode monitor; composition with C01', design='4/C11'),
+
+ 'C15': dict(
+   text='Data-race freedom, claimed for two of the three components: (a) rwp::Resource + guards: the sequentialised, access-instrumented real Resource.cpp runs under a happens-before monitor (vector clocks for mutex release->acquire and '
+        'thread start; ONE watched byte chosen nondeterministically among all bytes of the Resource object) and CBMC decides over every schedule of 2-3 threads and every watched byte that no two conflicting accesses are unordered; '
+        '(b) ConcurrentSubjectRouter: the lock-discipline check of C11 (every access to router memory happens with the Resource held in the right mode) which, with C01, orders every pair of conflicting accesses. '
+        '(c) ThreadPool/Thread: NOT covered — the sequentialised ThreadPool.cpp is outside the engine budget (DESIGN 8.3).',
+   note=TB + 'sequential consistency; accesses are those of the -O1 IR; ThreadPool part of the property not decided by this check.',
+   technique='SAT-based bounded model checking (CBMC) with a vector-clock happens-before monitor on instrumented accesses; lock-discipline monitor for the router', design='4/C15 + 8.2'),
+ 'C17': dict(
+   text='Bounded model checking of the real File.cpp, Path.cpp, Exception.cpp and Array.h over a POSIX stdio/dirent model (rt/rt_fs.c): for every cube (write mode, length 0..3 (thorough 6), split into two write calls, write overload, '
+        'pre-existing content, read path read()/readStr()/read(buffer), binary/text, error scenarios, seek/tell/size sequence) CBMC decides over all byte values that what is read back is what was written (after the existing bytes for append, '
+        'alone for write), size()/tell() are right, missing file => Exception(NotFound), directory => Exception(NotFile), and no stream or heap block is leaked.',
+   note=TB + 'the model IS the POSIX contract as implemented by glibc/Linux (fopen(dir,"r") succeeds, text == binary); the kernel, glibc buffering and contents longer than the bound are outside, so "multi-megabyte" is not claimed; counterexamples are model-level.',
+   technique='SAT-based bounded model checking (CBMC) of clang-lowered File/Path code over a POSIX file-system model; symbolic file contents', design='4/C17'),
+ 'C18': dict(
+   text='Bounded model checking of the real Path.cpp and DirectoryVisitor.cpp: (a) string part — d and n are byte strings of cube-given lengths 0..4 (thorough 6) with every byte symbolic: name(join(d,n)) == n, parent(join(d,n)) == d minus one '
+        'trailing separator, join(d, absolute) == absolute, totality on every string incl. "", "/", "//" (no out-of-range erase); (b) file-system part over the POSIX model: for every tree shape of <= 2 (thorough 3) nodes with names a, b, "c c" and '
+        'symbolic file sizes/contents: exists/isFile/isDirectory, size() = sum of the files beneath, listChildren() = every entry once without . and .., DirectoryVisitor restores the working directory, no handle leaked.',
+   note=TB + 'POSIX model instead of the real kernel; model std::string with [basic.string] semantics; directory names ending in a backslash excluded (join does not treat it as a separator on Linux).',
+   technique='SAT-based bounded model checking (CBMC) of clang-lowered Path code; symbolic path bytes; POSIX file-system model', design='4/C18'),
+ 'C19': dict(
+   text='Bounded model checking of the real LocaleInfo.cpp with its full tables (224 languages, 249 countries): one query per input length decides over EVERY string of that length (each byte symbolic) that no access leaves its buffer '
+        '(explicit length preconditions on memcpy/memset, bounds checks on every dereference) and — in the "full" queries — that the result is either the documented en/GB fallback with error set or a table hit whose pointers are table entries '
+        'naming the input\'s language and country (an uninitialised field is a nondeterministic value and fails the membership checks). Quick: lengths 5 (full) and 66 (safety, parts >= 64 bytes); thorough adds 3,6,7,9 (full) and 12,40,70 (safety).',
+   note=TB + 'model std::list (capacity 8); string.h functions as plain loops; per-length claims are complete for that length, other lengths are outside.',
+   technique='SAT-based bounded model checking (CBMC) of clang-lowered LocaleInfo::get with full tables; every input byte symbolic', design='4/C19'),
 }
-REASON_WIP = 'check not built yet (work in progress, see DESIGN.md section 7)'
+REASON_WIP = 'check not built yet'
+NA = {
+ 'C07': 'ThreadPool task ownership: the harness, the racy-field scheduling points and the plan exist (harness/h_pool.cpp, checks/pool_common.py) but symbolic execution of the sequentialised real ThreadPool.cpp+Thread.cpp with ONE worker, ONE task '
+        'and a 12-step schedule does not finish in 400 s, and a 22-step run (needed for start+stop) was still in symbolic execution after 30 CPU-minutes; CBMC field-sensitive pointer assignments dominate. Not decidable with this technique family on this image within budget.',
+ 'C08': 'ThreadPool::stop() termination: same encoding and same measured blow-up as C07 (see DESIGN.md 8.3); the suspected lost wake-up (stop() writes m_isRunning without the queue mutex) is therefore neither confirmed nor refuted.',
+}
 m = {"version": 1, "setup_cmd": "./vf setup",
      "hooks": {"guard": "TULZ_VERIF", "enable": "no source hooks are needed: harness translation units reach private state with '#define private public' around the tulz header; checks compile /repo's working tree directly",
                "baseline_off_cmd": "cmake -G Ninja -B /repo/_build -S /repo >/dev/null && cmake --build /repo/_build >/dev/null && ctest --test-dir /repo/_build -j8 --timeout 900",
@@ -71,6 +135,6 @@ for i in ids:
                             "evidence_file": "evidence/%s.json" % i, "replay_cmd_template": "./vf check %s --replay {path}" % i, "engine": "ll2c+cbmc",
                             "level_claimed": {"category": "model_checking", "text": c['text'], "design_ref": c['design']}, "level_note": c['note'], "technique": c['technique']})
     else:
-        m['not_applicable'].append({"property_id": i, "reason": REASON_WIP})
+        m['not_applicable'].append({"property_id": i, "reason": NA.get(i, REASON_WIP)})
 json.dump(m, open(os.path.join(V, 'MANIFEST.json'), 'w'), indent=1)
 print('checks:', sorted(CHECKS), 'n/a:', len(m['not_applicable']))
